@@ -8,6 +8,10 @@ const std::vector<std::vector<std::string>>& entry_args()
 {
   static std::vector<std::vector<std::string>> v; if (v.empty()) for (int i = 0; i < E_COUNT; ++i) v.push_back(split_sig(g_sigs[i].args)); return v;
 }
+// Entry points are identified in arguments / replay files by a stable hash of their name, so saved
+// cases survive additions to the inventory.
+int64_t entry_key(int id) { uint64_t h = 1469598103934665603ull; for (const char* p = g_sigs[id].name; *p; ++p) { h ^= (unsigned char)*p; h *= 1099511628211ull; } return (int64_t)(h & 0x7fffffffffffffffull); }
+int entry_from_key(int64_t k) { static std::unordered_map<int64_t, int> m; if (m.empty()) for (int i = 0; i < E_COUNT; ++i) m[entry_key(i)] = i; auto it = m.find(k); return it == m.end() ? -1 : it->second; }
 static const char* base_name(const char* f) { const char* b = f ? f : "?"; for (const char* p = b; *p; ++p) if (*p == '/') b = p + 1; return b; }
 
 // is `v` an admissible value for an argument of type token `tok` (C07 domain: any finite or NaN
@@ -36,8 +40,9 @@ static bool c07_nontrivial(const std::string& tok, int64_t v)
 }
 static void c07_check(Ctx& ctx, const Args& a)
 {
-  if (a.size() != 4 || a[0] < 0 || a[0] >= E_COUNT) { ctx.skip(); return; }
-  int id = (int)a[0]; const auto& sig = entry_args()[id];
+  if (a.size() != 4) { ctx.skip(); return; }
+  int id = entry_from_key(a[0]); if (id < 0) { ctx.skip(); return; }
+  const auto& sig = entry_args()[id];
   for (size_t i = 0; i < sig.size(); ++i) if (!c07_arg_ok(sig[i], a[1 + i])) { ctx.skip(); return; }
   for (size_t i = sig.size(); i < 3; ++i) if (a[1 + i] != 0) { ctx.skip(); return; }
   bool nt = false; for (size_t i = 0; i < sig.size(); ++i) nt = nt || c07_nontrivial(sig[i], a[1 + i]);
@@ -70,7 +75,7 @@ static int64_t c07_gen_arg(Dec& d, const std::string& tok)
 }
 static Args c07_decode(Ctx&, Dec& d)
 {
-  int id = (int)d.range(0, E_COUNT - 1); const auto& sig = entry_args()[id]; Args a = { id, 0, 0, 0 };
+  int id = (int)d.range(0, E_COUNT - 1); const auto& sig = entry_args()[id]; Args a = { entry_key(id), 0, 0, 0 };
   for (size_t i = 0; i < sig.size() && i < 3; ++i) a[1 + i] = c07_gen_arg(d, sig[i]);
   return a;
 }
@@ -111,8 +116,10 @@ bool c08_arg_ok(int id, size_t i, const std::string& tok, int64_t v)
 }
 static void c08_check(Ctx& ctx, const Args& a)
 {
-  if (a.size() != 4 || a[0] < 0 || a[0] >= E_COUNT) { ctx.skip(); return; }
-  int id = (int)a[0]; const auto& sig = entry_args()[id];
+  if (a.size() != 4) { ctx.skip(); return; }
+  int id = entry_from_key(a[0]); if (id < 0) { ctx.skip(); return; }
+  const auto& sig = entry_args()[id];
+  if (id == E_k_sqrt_ce) { ctx.skip(); return; }     // reports the configuration itself, differs by design
   for (size_t i = 0; i < sig.size(); ++i) if (!c08_arg_ok(id, i, sig[i], a[1 + i])) { ctx.skip(); return; }
   for (size_t i = sig.size(); i < 3; ++i) if (a[1 + i] != 0) { ctx.skip(); return; }
   bool nt = false; for (size_t i = 0; i < sig.size(); ++i) nt = nt || c07_nontrivial(sig[i], a[1 + i]) || (sig[i] == "x" && iabs128(a[1 + i]) >= ((i128)1 << 30));
@@ -134,7 +141,8 @@ static void c08_check(Ctx& ctx, const Args& a)
 }
 Args c08_decode(Ctx&, Dec& d)
 {
-  int id = (int)d.range(0, E_COUNT - 1); const auto& sig = entry_args()[id]; Args a = { id, 0, 0, 0 };
+  // the k_* constants take no arguments; they are compared once by C08.consts
+  int id = (int)d.range(E_k_sqrt_ce + 1, E_COUNT - 1); const auto& sig = entry_args()[id]; Args a = { entry_key(id), 0, 0, 0 };
   int mb = c08_maxbits(id); const char* n = g_sigs[id].name;
   bool degfn = (!strncmp(n, "sina_", 5) || !strncmp(n, "cosa_", 5) || !strncmp(n, "tana_", 5));
   for (size_t i = 0; i < sig.size() && i < 3; ++i) {
@@ -148,6 +156,14 @@ Args c08_decode(Ctx&, Dec& d)
   }
   return a;
 }
+static void c08_consts_check(Ctx& ctx, const Args& a)
+{
+  int id = a.size() == 1 ? entry_from_key(a[0]) : -1; if (id < 0 || id >= E_k_sqrt_ce) { ctx.skip(); return; }
+  ctx.nontriv(); ctx.cls(g_sigs[id].name); int64_t ref = 0;
+  for (size_t ci = 0; ci < ctx.cuts.size(); ++ci) { int64_t v; if (!ctx.call(ci, id, 0, v)) continue; if (ci == 0) ref = v; else if (v != ref) ctx.fail(ci, strf("constant %s = %" PRId64 " on %s but %" PRId64 " on %s", g_sigs[id].name, v, ctx.cuts[ci].name.c_str(), ref, ctx.cuts[0].name.c_str())); }
+}
+static SweepInfo c08_consts_sweep(Ctx& ctx, const Clause& cl) { SweepInfo si; si.exhaustive = true; si.note = "the exported library constants"; if (ctx.worker == 0) for (int i = 0; i < E_k_sqrt_ce; ++i) ctx.evaluate(cl, { entry_key(i) }); return si; }
+static Reg r_c08c({ "C08.consts", "C08", "sweep", "the library constants the oracles read (phi, pi/2, pi/4, 2pi, max, lowest, NaN, one, fixtorad_r) are identical on every build configuration", c08_consts_check, 0, nullptr, c08_consts_sweep });
 static Reg r_c08({ "C08.diff", "C08", "rc",
   "(entry point, arguments) over the whole inventory, arguments restricted to the domain on which the owning property defines the function (finite operands; |x| < 2^46 for sin/cos, < 2^62 for tan, < 2^47 for atan/atan2/hypot/sqrt; degrees within +-2^20); oracle (differential): the result is bit-identical on every loaded build configuration (GCC and Clang, -O0..-O3, c++17/c++20/c++2b) - functions that reach sqrt() are compared within the group that selects the same algorithm - and |sqrt_abacus(x) - sqrt_std_math(x)| <= 1 ulp; non-trivial = an argument with |raw| >= 2^30, a NaN result, an integer in {0,+-1} or >= 2^31, a negative/large shift count, out-of-range floats",
   c08_check, 24, c08_decode, nullptr });
